@@ -481,7 +481,9 @@ Proof.
   destruct e; try (apply BE; reflexivity).
   - (* ESend *)
     destruct (NS ltac:(intros ? X; discriminate X)) as (s1 & o1 & ep & o2 & C & A & ->). cbn [core] in C.
-    destruct ((cnt <? 1) || (bytes <? 0)) eqn:G.
+    destruct ((cnt <? 1) || (bytes <? 0)) eqn:G; [|destruct (stopping_dec s) as [SG|SG]; rewrite SG in C].
+    + inv C. simpl in A. inv A. split; [eapply PInv_same; eauto; reflexivity|].
+      mon_same.
     + inv C. simpl in A. inv A. split; [eapply PInv_same; eauto; reflexivity|].
       mon_same.
     + apply orb_false_iff in G as [G1 G2]. apply Z.ltb_ge in G1, G2. inv C.
@@ -974,7 +976,8 @@ Proof.
   { intros s1 o1 ep o2 N A ->. apply sp_ok_app_l; auto. eapply epi_sp; eauto. }
   destruct e; try (apply BE; reflexivity).
   - destruct (NS ltac:(intros ? X; discriminate X)) as (s1 & o1 & ep & o2 & C & A & E). cbn [core] in C.
-    eapply Q; eauto. destruct ((cnt <? 1) || (bytes <? 0)); inv C; [intros a m v [X|[]]; discriminate|apply no_sp_nil].
+    eapply Q; eauto. destruct ((cnt <? 1) || (bytes <? 0)); [|destruct (stopping s)]; inv C;
+      [intros a m v [X|[]]; discriminate|intros a m v [X|[]]; discriminate|apply no_sp_nil].
   - destruct (NS ltac:(intros ? X; discriminate X)) as (s1 & o1 & ep & o2 & C & A & E). cbn [core] in C.
     eapply Q; eauto. inv C. intros a m v [X|[]]; discriminate.
   - destruct (NS ltac:(intros ? X; discriminate X)) as (s1 & o1 & ep & o2 & C & A & E). cbn [core] in C.
@@ -1215,7 +1218,8 @@ Proof.
         destruct P as [_ P]; rewrite Ph in P; destruct P as (_ & _ & _ & [Pn _] & _); lia. }
   destruct e; try (apply BE; reflexivity).
   - destruct (NS ltac:(intros ? X; discriminate X)) as (s1 & o1 & ep & o2 & C & A & ->). cbn [core] in C.
-    destruct ((cnt <? 1) || (bytes <? 0)) eqn:G.
+    destruct ((cnt <? 1) || (bytes <? 0)) eqn:G; [|destruct (stopping_dec s) as [SG|SG]; rewrite SG in C].
+    + inv C. simpl in A. inv A. split; [apply incl_appl; unfold pend; simpl; apply incl_refl|intros ? []].
     + inv C. simpl in A. inv A. split; [apply incl_appl; unfold pend; simpl; apply incl_refl|intros ? []].
     + apply orb_false_iff in G as [G1 G2]. apply Z.ltb_ge in G1, G2. inv C.
       match type of A with apply_epi _ ?st _ = _ => assert (W1 : WInv st) by (apply inv_send; auto) end.
